@@ -12,30 +12,32 @@ JOBS = [
     dict(name='c14_crc32_tables', entry='h_tables', loop_contracts=False, unwind=257,
          functions=['crc32_init_tables'], est_s=15, **B),
     # 2. byte step (tail-loop statement) == 8 reflected bit-serial steps, all (crc, byte)
-    dict(name='c14_crc32_lemma_byte', entry='h_lemma_byte', enforce='cqv_lemma_byte', loop_contracts=False,
-         unwind=257, functions=[], est_s=20, **B),
+    dict(name='c14_crc32_lemma_byte', entry='h_lemma_byte', enforce='cqv_spec_byte', loop_contracts=False,
+         unwind=257, functions=[], est_s=20, timeout=300, **B),
+    # 4a. Tn[x] as zero-byte steps of T0[x] (2^8)
+    dict(name='c14_crc32_lemma_rec', entry='h_lemma_rec', enforce='cqv_lemma_rec', loop_contracts=False,
+         unwind=257, functions=[], est_s=30, timeout=300, **B),
 ]
-# 4a. every table is GF(2)-linear (2^16 inputs each); Tn[x] as zero-byte steps of T0[x] (2^8)
+# 4a. every table is GF(2)-linear (2^16 inputs each)
 for k in range(8):
-    JOBS.append(dict(name='c14_crc32_lemma_lin%d' % k, entry='h_lemma_lin', enforce='cqv_lemma_lin',
+    JOBS.append(dict(name='c14_crc32_lemma_lin%d' % k, entry='h_lemma_lin',
                      loop_contracts=False, unwind=257, functions=[], est_s=40, timeout=300,
-                     bound=None, **dict(B, defines=B['defines'] + ['CQV_K=%d' % k])))
-JOBS.append(dict(name='c14_crc32_lemma_rec', entry='h_lemma_rec', enforce='cqv_lemma_rec', loop_contracts=False,
-                 unwind=257, functions=[], est_s=30, timeout=300, **B))
-# 4b. slide lemmas: H_k(s, d_k..d_7) == H_{k+1}(bytestep(s, d_k), d_{k+1}..d_7), all inputs
+                     **dict(B, defines=B['defines'] + ['CQV_K=%d' % k])))
+# 4b. slide lemmas: H_k(s) == H_{k+1}(bytestep(s, d_k)), all inputs; harness is the contract
 for k in range(8):
-    JOBS.append(dict(name='c14_crc32_lemma_slide%d' % k, entry='h_lemma_slide', enforce='cqv_lemma_slide%d' % k,
+    JOBS.append(dict(name='c14_crc32_lemma_slide%d' % k, entry='h_lemma_slide',
                      loop_contracts=False, unwind=257, functions=[], est_s=60, timeout=300,
                      replace=['cqv_lemma_lin', 'cqv_lemma_rec'],
                      **dict(B, defines=B['defines'] + ['CQV_K=%d' % k])))
 JOBS += [
-    # 4. block statement == eight bit-serial byte steps (2^96), from the slide lemmas and the byte lemma
-    dict(name='c14_crc32_lemma_block8', entry='h_lemma_block8', enforce='cqv_lemma_block8', loop_contracts=False,
-         replace=SLIDES + ['cqv_lemma_byte'], unwind=257, functions=[], est_s=30, **B),
+    # 4. eight bit-serial byte steps == block statement (2^96), from the slide lemmas and the byte lemma
+    dict(name='c14_crc32_lemma_block8', entry='h_lemma_block8', loop_contracts=False,
+         replace=SLIDES + ['cqv_spec_byte'], unwind=257, functions=[], est_s=30, timeout=300,
+         **dict(B, defines=B['defines'] + ['CQV_PROVE_BLOCK8=1'])),
     # 3.+4.+5. the real function: both loops in lockstep with the ghost bit-serial register, unbounded length
     dict(name='c14_crc32_slicing_by_8', entry='h_slicing', enforce='crc32_slicing_by_8',
-         replace=['cqv_lemma_block8'], unwindset=INIT_LOOPS + ['memcpy.0:17'], min_loop_obligations=2,
-         functions=['crc32_slicing_by_8', 'crc32_init_tables'], trusted=[STATE], est_s=60, **B),
+         replace=['cqv_spec_block8', 'cqv_spec_byte'], unwindset=INIT_LOOPS + ['memcpy.0:17'], min_loop_obligations=2,
+         functions=['crc32_slicing_by_8', 'crc32_init_tables'], trusted=[STATE], est_s=60, timeout=300, **B),
     dict(name='c14_crc32', entry='h_crc32', enforce='carquet_crc32', replace=['crc32_slicing_by_8'],
          loop_contracts=False, **B),
     dict(name='c14_crc32_update', entry='h_crc32_update', enforce='carquet_crc32_update', replace=['crc32_slicing_by_8'],
